@@ -282,6 +282,31 @@ def representations_unit(ck, name, yaml):
         r3, m3 = ck.solve(tr.uni, *printable, *cs)
         if r3 == 'sat':
             models.append((8, ai, m3, True))
+    # documents in which a *member is literally named* like a dotted / indexed key of the rule: no representation may
+    # answer the path from it
+    lits = []
+    for tree in [r['expr']] + [t for _, t in r['idents']]:
+        any_node(tree, lambda j: j.get('t') in ('Search', 'Nested', 'Field', 'Cast') and (b'.' in bytes(j['f']) or b'[' in bytes(j['f'])) and lits.append(bytes(j['f'])))
+    literal_docs = []
+    for key in sorted(set(lits)):
+        nd_ = (needles[0] if needles else b'a').decode('latin1')
+        head = key.decode('latin1').split('.')[0].split('[')[0]
+        literal_docs.append({key.decode('latin1'): nd_})
+        literal_docs.append({key.decode('latin1'): nd_, head: {'zz': nd_}})
+    for li, pd in enumerate(literal_docs):
+        ck.obligations += 1
+        text = _json.dumps(pd)
+        docj = {'$obj': [[list(k.encode()), ({'$str': list(v.encode())} if isinstance(v, str) else {'$obj': [[list(k2.encode()), {'$str': list(v2.encode())}] for k2, v2 in v.items()]})] for k, v in pd.items()]}
+        n_obj = br.call(cmd='eval', yaml=yaml, opts=None, doc=docj, mode='object')
+        n_yaml = br.call(cmd='eval_yaml', yaml=yaml, opts=None, doc_text=text)
+        n_json = br.call(cmd='eval_yaml', yaml=yaml, opts=None, doc_text=text, json=True)
+        got = {'object': n_obj.get('verdict'), 'yaml': n_yaml.get('verdict'), 'json': n_json.get('verdict')}
+        if len(set(got.values())) == 1:
+            ck.discharged += 1
+            ck.replays_ok += 3
+        else:
+            path = ck.write_replay('representations_' + safe(name) + '_literal%d' % li, {'rule': yaml, 'document': pd, 'verdicts': got, 'native': [n_obj, n_yaml, n_json]})
+            ck.violations.append((path, '%s: a member literally named like the key gives different verdicts depending on the representation: %s on %s' % (name, got, text)))
     for val, i, model, extra in models:
         ck.obligations += 1
         docj = tr.render_doc(model)
